@@ -21,6 +21,8 @@ from .. import lib as svlib
 from .. import world as svworld
 from ..world import SimWorld
 
+EVAL_COUNTER = "histories"
+EVAL_UNIT = "one (pipeline, repeat mode) history of 452 runs"
 LEVEL = "exploration"
 RULE = ("seeded pipelines (sweeps, slicers, shorthands, sinks included) x four repeat modes, N=450 runs after one warm-up, "
         "samples after 50/150/450 runs of: sum of component-registry list lengths, sizes of every other module-level container "
@@ -419,6 +421,7 @@ def execute(sc: dict, seed: int) -> dict:
             vs = _run_mode(sc, mode, w, stats)
             viols.extend(vs)
             stats[f"probe.mode.{mode}"] = 1
+            stats["histories"] = stats.get("histories", 0) + 1
             stats["runs_executed"] = stats.get("runs_executed", 0) + sc["n"] + 2
             nontrivial.append(f"{bd}/{mode}")
         if sc.get("traced"):
